@@ -384,7 +384,8 @@ def run(tier, only=None):
     ck.assume('domain: positions and centres within +-20000, extents 0..1000, yaw from the stated finite set; distances: result >= 0 and result^2 within relative (1 +- %s)^2 of the exact sum of squares (+- 1e-12); map equality and the trigger-table lookup (verify_trigger) are not covered by this check' % TOL)
     return ck.finish({'states': max(len(jobs), 1), 'transitions': max(nq, 1), 'traces_validated_against_impl': 0, 'yaws': len(jobs), 'queries': nq, 'functions_encoded': sorted(fns)[:30],
                       'bounds': 'yaw: the stated finite set; all other inputs symbolic reals over the stated ranges (superset of the f32 values)',
-                      'rule': 'per yaw: two z3 queries in linear real arithmetic (clearly inside => true, clearly outside => false) over all positions and box dimensions; distances: nonlinear real arithmetic'}, fail_on_inconclusive=False)
+                      'box_yaws_decided': nhold,
+                      'rule': 'per yaw: two z3 queries in linear real arithmetic (clearly inside => true, clearly outside => false) over all positions and box dimensions; distances: nonlinear real arithmetic'}, fail_on_inconclusive=(nhold == 0 and len(jobs) > 0 and not ck.violations))
 
 
 def replay(path):
